@@ -240,3 +240,49 @@ func runRandomized(c *mc.Ctx, keys []keyT, alphas []named) {
 }
 
 var _ = ref.P
+
+// runProve2: the class keys (chosen on the reference side by the shape of the clamped scalar) through the honest
+// path: Prove = reference (difference localised), the proof verifies under its own key, beta = ProofToHash = reference.
+func runProve2(c *mc.Ctx, ckeys []keyT, alphas []named) {
+	als := []named{alphas[1%len(alphas)], alphas[6%len(alphas)]}
+	p := mc.Product{Radix: []int{len(ckeys), len(als), len(formats)}}
+	par(c, "class-keys", p.Size(), func(w *mc.W, i int) {
+		var d [3]int
+		p.Decode(i, d[:])
+		k, al, f := ckeys[d[0]], als[d[1]], formats[d[2]]
+		a := apiFor(f)
+		tr := proveRef(f, k.ref, al.b)
+		w.Eval("class-keys/"+f.String(), true)
+		extra := []string{"key", k.desc, "alpha_desc", al.desc, "seed", hexs(k.ref.Seed), "scalar_classes", fmt.Sprint(scalarClasses(k.ref.X))}
+		pi := a.prove(k.sk, al.b)
+		if !bytes.Equal(pi, tr.Pi) {
+			what := "s"
+			switch {
+			case len(pi) != refvrf.ProofLen:
+				what = "length"
+			case !bytes.Equal(pi[:32], tr.Pi[:32]):
+				what = "Gamma"
+			case !bytes.Equal(pi[32:48], tr.Pi[32:48]):
+				what = "c"
+			}
+			w.Fail("ecvrf.Prove"+a.name+"/proof-"+what, fmt.Sprintf("%s %s %s %v: pi=%x want %x (first difference in %s)", k.desc, al.desc, f, scalarClasses(k.ref.X), pi, tr.Pi, what), caseMap(f, k.pk, pi, al.b, extra...))
+		}
+		if len(pi) == refvrf.ProofLen {
+			// completeness under the key's own public key, judged by the reference and by the library
+			refOK, why, libOK, libBeta := checkVerify(w, "class-keys/verify", f, k.pk, pi, al.b, extra...)
+			if !refOK {
+				w.Fail("ecvrf.Prove"+a.name+"/proof-does-not-verify", fmt.Sprintf("%s %s %s: pi=%x is INVALID per the reference verifier (%s)", k.desc, al.desc, f, pi, why), caseMap(f, k.pk, pi, al.b, extra...))
+			}
+			if libOK && !bytes.Equal(libBeta, tr.Beta) {
+				w.Fail("ecvrf.Verify"+a.name+"/beta", fmt.Sprintf("%s %s %s: beta %x want %x", k.desc, al.desc, f, libBeta, tr.Beta), caseMap(f, k.pk, pi, al.b, extra...))
+			}
+		}
+		// the reference proof through Verify and ProofToHash
+		if ok, beta := a.verify(k.pk, tr.Pi, al.b); !ok || !bytes.Equal(beta, tr.Beta) {
+			w.Fail("ecvrf.Verify"+a.name+"/rejects-valid", fmt.Sprintf("[class-keys] %s %s %s: reference proof %x: (%v, %x) want (true, %x)", k.desc, al.desc, f, tr.Pi, ok, beta, tr.Beta), caseMap(f, k.pk, tr.Pi, al.b, extra...))
+		}
+		if b2, err := ecvrf.ProofToHash(tr.Pi); err != nil || !bytes.Equal(b2, tr.Beta) {
+			w.Fail("ecvrf.ProofToHash/beta", fmt.Sprintf("[class-keys] %s %s: (%x, %v) want %x", k.desc, al.desc, b2, err, tr.Beta), caseMap(f, k.pk, tr.Pi, al.b, extra...))
+		}
+	})
+}
